@@ -215,6 +215,20 @@ CHECKS["C16"] = (True, "exploration",
     TRUST + "main() is called in-process with patched argv/stdio; the "
     "installed scripts are sampled as subprocesses.", "6/C16")
 
+CHECKS["C17"] = (True, "fault_enumeration",
+    "generated failure causes against a directory-snapshot oracle, and "
+    "exhaustive single-fault enumeration over the I/O call sequence of each "
+    "save (counting proxies installed in the command modules)",
+    "Every pre-write failure cause x document x {stale .bak, --backup} must "
+    "exit non-zero with the directory byte-identical; for every successful "
+    "yaml-set --backup / yaml-merge --overwrite --backup / eyaml-rotate-keys "
+    "--backup base case each of the save's I/O calls (open for write, every "
+    "write(), copy2, remove, copyfileobj) is failed in turn and the target "
+    "or its .bak must still hold the complete pre-image; a completed run "
+    "must leave .bak identical to the pre-image.",
+    TRUST + "Faults are injected at Python-level I/O call boundaries, not by "
+    "killing the process; eyaml is a stand-in executable.", "6/C17")
+
 ALL = ["C%02d" % i for i in range(1, 20)]
 
 
